@@ -77,8 +77,8 @@ def run_case(ctx, kind, rng, idx):
     tolm = min(1e-4, 1e-9 * max(cm, 1.0))
     q_by = {}
     m_by = {}
-    src_arg = src if rng.random() < 0.5 else np.array(src)
-    snk_arg = snk if rng.random() < 0.5 else np.array(snk)
+    src_arg = [list, np.array, tuple][idx % 3](src)
+    snk_arg = [np.array, tuple, list][(idx // 3) % 3](snk)
     if len(src) == 1 and rng.random() < 0.5:
         src_arg = src[0]
     if len(snk) == 1 and rng.random() < 0.5:
